@@ -170,6 +170,43 @@ def load_and_validate(ctx, base, cid_rows, case, via_main):
             ctx.violation("C10:exit-4:cid", case, "the command line answered a hostile CID with exit code 4", expected="0, 1 or 3", observed=code)
 
 
+HOSTILE_COUNTS = ["0", "-1", "00", "x", "", "1.5", " 2 ", "99999999999999999999", "1e3", "\u0663"]
+
+
+def hostile_ods_counts(ctx, base):
+    """ODS data and ODS CIDs whose first repeat count (of a row, of a cell - also on the very first row of the sheet) is
+    hostile: a data error / interface error or success, never an internal error."""
+    import cutplace
+    from cutplace import errors, interface
+
+    cid = interface.Cid()
+    cid.read("<c10>", [list(r) for r in base.rows])
+    path = os.path.join(base.dir, "hostile_counts.ods")
+    for attr in HOSTILE_COUNTS:
+        for which in ("row", "cell"):
+            for target in ("data", "cid"):
+                table = BASE_DATA if target == "data" else base.rows
+                # (a first row that is repeated, so that the hostile count stands on the first row element of the sheet)
+                table = [list(table[0])] + [list(r) for r in table]
+                kw = {"row_repeat_attr": attr} if which == "row" else {"cell_repeat_attr": attr}
+                storage.write_ods(path, [table], ("rowruns", "colruns"), **kw)
+                case = {"base": "ods", "hostile_count": attr, "on": which, "in": target}
+                ctx.case(case, True)
+                ctx.count("ods-counts.judged")
+                try:
+                    if target == "data":
+                        cutplace.validate(cid, path)
+                    else:
+                        cutplace.Cid(path)
+                except (errors.DataError, errors.InterfaceError):
+                    ctx.count("ods-counts.refused")
+                except MemoryError:
+                    ctx.unjudged("memory exhausted under an absurd repeat count")
+                except (Exception, SystemExit) as error:
+                    ctx.violation("C10:escape:ods-count:%s" % classify_escape(error), case, "an ODS container with a hostile repeat count ended in an internal error",
+                                  expected="DataError, InterfaceError or success", observed=error)
+
+
 def hostile_data(ctx, base, table, case, via_main):
     import cutplace
     from cutplace import errors, interface
@@ -347,6 +384,8 @@ def run(ctx):
     index = 0
     for kind in ("delimited", "fixed", "excel", "ods"):
         base = Base(ctx, kind)
+        if kind == "ods" and ctx.mine(3):
+            hostile_ods_counts(ctx, base)
         # ---- CID cells, one at a time
         for r, row in enumerate(base.rows):
             for c in range(1, {"D": 3, "F": 7, "C": 4}[row[0]]):
